@@ -232,6 +232,28 @@ func (c *capBuf) Write(p []byte) (int, error) {
 	return c.Buffer.Write(p)
 }
 
+// ReadFrom hides bytes.Buffer.ReadFrom: os/exec copies the child's output with io.Copy, which prefers
+// the destination's ReadFrom and would bypass the cap in Write (a flooding program then fills memory
+// until the timeout instead of being cut off and classified "flood").
+func (c *capBuf) ReadFrom(r io.Reader) (n int64, err error) {
+	buf := make([]byte, 32*1024)
+	for {
+		m, rerr := r.Read(buf)
+		if m > 0 {
+			if _, werr := c.Write(buf[:m]); werr != nil {
+				return n, werr
+			}
+			n += int64(m)
+		}
+		if rerr == io.EOF {
+			return n, nil
+		}
+		if rerr != nil {
+			return n, rerr
+		}
+	}
+}
+
 type RunResult struct {
 	Exit      int    // exit status, -1 if killed by signal / timeout
 	Signal    string // name of the terminating signal, "" otherwise
